@@ -1,7 +1,9 @@
 // C02 correspondence harness: every evaluation path of a topological question on pairs with arbitrary doubles.
 //   c02 relate-dbl <seed> <n> <outbase>
+//   c02 im-algebra <seed> <n> <outbase>   (geom::IntersectionMatrix get/set/setAtLeast/transpose/matches on random matrices)
 //   c02 replay <file>
 #include "relobs.h"
+#include <geos/geom/IntersectionMatrix.h>
 #include <cstdarg>
 #include <fstream>
 #include <iostream>
@@ -115,6 +117,34 @@ int main(int argc, char** argv) {
         GEOS_finish_r(h); return 0; }
     if (argc < 5) return 2;
     uint64_t seed = std::stoull(argv[2]); long n = std::stol(argv[3]); Out out(argv[4]); Rng r(seed);
+    if (stream == "im-algebra") {
+        // geom::IntersectionMatrix as a matrix (the functions regenerated into Generated/IMMatrix.lean): a random matrix, a random sequence of
+        // set / setAtLeast / transpose, then toString, get of one cell, matches(pattern) and matches(transposed pattern) of the transposed matrix
+        using geos::geom::IntersectionMatrix; using geos::geom::Location;
+        static const char dims[] = "F012"; static const char sym[] = "TF*012";
+        static const Location locs[3] = {Location::INTERIOR, Location::BOUNDARY, Location::EXTERIOR};
+        for (long i = 0; i < n; i++) {
+            std::string m, pat; for (int k = 0; k < 9; k++) { m += dims[r.chance(35) ? 0 : r.below(4)]; pat += sym[r.below(6)]; }
+            if (r.chance(30)) pat = FIXED_PATTERNS[r.below(sizeof FIXED_PATTERNS / sizeof FIXED_PATTERNS[0])];
+            if (r.chance(10)) { pat = m; for (auto& ch : pat) if (ch != 'F' && r.chance(50)) ch = 'T'; }
+            if (r.chance(4)) pat = r.chance(50) ? pat.substr(0, r.below(9)) : pat + "T";            // wrong length: matches() throws
+            IntersectionMatrix im(m); std::string ops;
+            int nops = r.range(0, 6);
+            for (int k = 0; k < nops; k++) { int op = (int) r.below(3), a = (int) r.below(3), b = (int) r.below(3), d = r.range(-1, 2);
+                std::string abd = std::to_string(a) + std::to_string(b) + dims[d + 1];
+                if (op == 0) { im.set(locs[a], locs[b], d); ops += " s" + abd; out.count("op_set"); }
+                else if (op == 1) { im.setAtLeast(locs[a], locs[b], d); ops += " l" + abd; out.count("op_setAtLeast"); }
+                else { im.transpose(); ops += " t"; out.count("op_transpose"); } }
+            int ga = (int) r.below(3), gb = (int) r.below(3);
+            std::string e = im.toString() + " " + std::to_string(im.get(locs[ga], locs[gb])) + " ";
+            char mt; try { mt = im.matches(pat) ? '1' : '0'; } catch (const std::exception&) { mt = 'X'; }
+            char mtt = mt;
+            if (pat.size() == 9) { std::string tp = pat; std::swap(tp[1], tp[3]); std::swap(tp[2], tp[6]); std::swap(tp[5], tp[7]);
+                IntersectionMatrix t(im); t.transpose(); mtt = t.matches(tp) ? '1' : '0'; }
+            e += mt; e += mtt;
+            out.count(std::string("match_") + (mt == '1' ? "true" : mt == '0' ? "false" : "throws"));
+            out.emit("A " + m + " " + (pat.empty() ? std::string("-") : pat) + " " + std::to_string(ga) + std::to_string(gb) + ops, e); }
+        GEOS_finish_r(h); return 0; }
     GridGen gen(r, h, &out); gen.walkPct = 15;
     for (long i = 0; i < n; i++) {
         gen.span = r.chance(60) ? 6 : (r.chance(50) ? 3 : 12);
